@@ -827,3 +827,41 @@ Proof.
   destruct (T_refines_map Z Z Z.eqb Z.to_N Z.eqb_eq example_ops (TSelfCopy Z Z)) as [Hi [Hr _]].
   split; [exact Hi|]. split; [exact Hr|]. split; vm_compute; reflexivity.
 Qed.
+
+(* ---------------------------------------------------------------- slot layout (TableLayout.v) *)
+From CelloV Require Import TableLayout.
+Local Close Scope Z_scope.
+
+(* Table_Size_Round rounds UP to a multiple of sizeof(var) = 8: re-proved for the text of the
+   working tree *)
+Lemma size_round_ge_proof : forall s : nat,
+  s <= size_round s /\ size_round s mod 8 = 0 /\ size_round s < s + 8.
+Proof.
+  intros s. unfold size_round, table_size_round.
+  pose proof (Nat.div_mod (s + 8 - 1) 8 ltac:(lia)) as Hd.
+  pose proof (Nat.mod_upper_bound (s + 8 - 1) 8 ltac:(lia)) as Hm.
+  split; [lia|]. split; [apply Nat.mod_mul; lia|lia].
+Qed.
+
+(* a stored key never reaches the value's header, a stored value never reaches the next slot
+   (whose first 8 bytes are its hash word), and slot i+1 starts where slot i ends *)
+Lemma slot_layout_proof : forall hdr ks vs i : nat,
+  let step := slot_step hdr ks vs in
+  8 <= key_off hdr - hdr /\
+  key_off hdr + ks <= val_hdr_off hdr ks /\
+  val_hdr_off hdr ks + hdr = val_off hdr ks /\
+  val_off hdr ks + vs <= step /\
+  i * step + step = S i * step /\
+  step mod 8 = (2 * hdr) mod 8.
+Proof.
+  intros hdr ks vs i step. unfold step, slot_step, key_off, val_hdr_off, val_off.
+  destruct (size_round_ge_proof ks) as [Hk [Hk8 _]]. destruct (size_round_ge_proof vs) as [Hv [Hv8 _]].
+  repeat split; try lia.
+  apply Nat.mod_divides in Hk8; [|lia]. apply Nat.mod_divides in Hv8; [|lia].
+  destruct Hk8 as [a Ha]. destruct Hv8 as [b Hb]. rewrite Ha, Hb.
+  replace (8 + hdr + 8 * a + hdr + 8 * b) with (2 * hdr + (1 + a + b) * 8) by lia.
+  apply Nat.mod_add. lia.
+Qed.
+
+Lemma layout_shape_proof : table_layout_shape_ok = true.
+Proof. reflexivity. Qed.
